@@ -95,6 +95,25 @@ def content_big(n, sw, ch):
     return bytes(out)
 
 
+def _fifo_with_writer(data):
+    """A named pipe with a writer that delivers `data` and closes: what a process substitution or /dev/stdin path is."""
+    import threading
+
+    _fifo_with_writer.n = getattr(_fifo_with_writer, "n", 0) + 1
+    path = os.path.join(common.scratch_dir(), "fifo_%d_%d.raw" % (os.getpid(), _fifo_with_writer.n))
+    os.mkfifo(path)
+
+    def feed():
+        try:
+            with open(path, "wb") as fp:
+                fp.write(data)
+        except OSError:
+            pass
+
+    threading.Thread(target=feed, daemon=True).start()
+    return path
+
+
 class SourceSys:
     """A real source next to the (open flag, cursor) reference model."""
 
@@ -109,7 +128,23 @@ class SourceSys:
         self.n = len(self.samples)
         self.open = False
         self.cur = 0
-        if kind == "buffer":
+        self.siblings = []
+        sib = kind.endswith("+sib")
+        if sib:
+            self.kind = kind = kind[: -len("+sib")]
+            self.siblings.append(self._sibling(aio, sw, ch))  # one that exists before ...
+        if kind in ("wav_eager", "raw_eager", "fifo_eager"):
+            # the in-memory loaders (large_file=False): whatever they return is modelled as a memory buffer
+            if kind == "fifo_eager":
+                path = _fifo_with_writer(data)
+            if kind == "wav_eager":
+                self.real = aio.from_file(path)
+            else:
+                self.real = aio.from_file(path, audio_format="raw", sampling_rate=SR, sample_width=sw, channels=ch)
+            if kind == "fifo_eager":
+                os.unlink(path)
+            self.kind = kind = "buffer"
+        elif kind == "buffer":
             self.real = aio.BufferAudioSource(data, SR, sw, ch)
         elif kind == "raw":
             self.real = aio.RawAudioSource(path, SR, sw, ch)
@@ -126,6 +161,18 @@ class SourceSys:
                 sys.stdin = old
         else:
             raise ValueError(kind)
+        if sib:
+            self.siblings.append(self._sibling(aio, sw, ch))  # ... and one constructed (and used) afterwards
+
+    @staticmethod
+    def _sibling(aio, sw, ch):
+        """Another live source with different parameters and its own cursor: nothing it does concerns the one under test."""
+        sw2 = 4 if sw != 4 else 2
+        ch2 = ch + 1
+        other = aio.BufferAudioSource(bytes(range(1, 1 + sw2 * ch2 * 5)), 3 * SR, sw2, ch2)
+        other.open()
+        other.read(2)
+        return other
 
     # -- alphabet
     def ops(self):
@@ -278,9 +325,10 @@ def work(task):
     big = n > 1000
     data = content_big(n, sw, ch) if big else content(n, sw, ch)
     path = None
-    if kind in ("raw", "wav"):
-        path = os.path.join(common.scratch_dir(), "src_%d_%d_%d.%s" % (n, sw, ch, kind))
-        if kind == "raw":
+    base = kind.split("+")[0]
+    if base in ("raw", "wav", "raw_eager", "wav_eager"):
+        path = os.path.join(common.scratch_dir(), "src_%d_%d_%d_%s.%s" % (n, sw, ch, base, base[:3]))
+        if base.startswith("raw"):
             with open(path, "wb") as fp:
                 fp.write(data)
         else:
@@ -366,6 +414,151 @@ def position_tables(rep):
         src.close()
 
 
+def _write(path, data, sw, ch, rate=SR):
+    if path.lower().endswith(".wav"):
+        with wave.open(path, "wb") as fp:
+            fp.setframerate(rate)
+            fp.setsampwidth(sw)
+            fp.setnchannels(ch)
+            fp.writeframes(data)
+    else:
+        with open(path, "wb") as fp:
+            fp.write(data)
+
+
+def _open_all(aio, path, lazy, sw, ch, rate=SR):
+    kw = {} if path.lower().endswith(".wav") else dict(audio_format="raw", sampling_rate=rate, sample_width=sw, channels=ch)
+    return aio.from_file(path, large_file=lazy, **kw)
+
+
+def loaders_large(rep, quick):
+    """Contents around 2^16 and 2^20 samples through every loader (eager / lazy x wav / raw): one read of everything, and
+    reads of 65536 samples to the end - directed rows, labelled as such."""
+    aio = lib()["io"]
+    d = common.scratch_dir()
+    for n in ((1 << 16) + 1, (1 << 20) + 3):
+        for (sw, ch) in ((2, 2), (2, 1)) if quick else ((2, 2), (2, 1), (1, 3), (4, 2)):
+            period = content_big(4099, sw, ch)
+            reps = n // 4099 + 1
+            data = (period * reps)[: n * sw * ch]  # period 4099 is prime: no chunk size divides it
+            for ext in ("wav", "raw"):
+                path = os.path.join(d, "big_%d.%s" % (os.getpid(), ext))
+                _write(path, data, sw, ch)
+                for lazy in (False, True):
+                    for how in ("all", "chunks"):
+                        rep.add("evaluations")
+                        rep.add("large_rows_not_exhaustive")
+                        rep.add("distinct_nontrivial")
+                        msg = None
+                        try:
+                            src = _open_all(aio, path, lazy, sw, ch)
+                            src.open()
+                            if how == "all":
+                                got = src.read(-1) if True else None
+                                tail = src.read(1)
+                            else:
+                                parts = []
+                                while True:
+                                    b = src.read(65536)
+                                    if b is None:
+                                        break
+                                    if len(b) == 0 or len(parts) > 40:
+                                        parts.append(b"?")
+                                        break
+                                    parts.append(b)
+                                got = b"".join(parts)
+                                tail = src.read(1)
+                            src.close()
+                            if got != data:
+                                msg = "%d bytes handed out, the file holds %d samples = %d bytes%s" % (
+                                    len(got or b""), n, len(data), "" if len(got or b"") != len(data) else " (content differs)")
+                            elif tail is not None:
+                                msg = "read after the end returned %r" % (tail[:8],)
+                        except Exception as exc:
+                            msg = "raised %r" % (exc,)
+                        if msg:
+                            rep.violation("loader-large n=%d sw=%d ch=%d %s lazy=%s %s" % (n, sw, ch, ext, lazy, how),
+                                          "%s file of %d samples (%d bytes/sample), %s loading, read %s: %s" % (
+                                              ext, n, sw * ch, "lazy" if lazy else "in-memory", how, msg),
+                                          {"kind": "loader_large"})
+                os.unlink(path)
+
+
+def fifo_loads(rep):
+    """A named pipe given where a raw file is expected (process substitution, /dev/stdin): the in-memory loader hands out
+    everything the writer delivered.  Contents 0..6 samples and one larger than the pipe's buffer."""
+    aio = lib()["io"]
+    for (sw, ch) in FORMATS:
+        for n in list(range(0, 7)) + [40011]:
+            data = content(n, sw, ch) if n < 1000 else content_big(n, sw, ch)
+            rep.add("evaluations")
+            rep.add("distinct_nontrivial", 1 if n else 0)
+            for h in ([("read", -1), ("read", 1)], [("read", 1), ("read", 2), ("read", None), ("read", 1)]):
+                s_ = SourceSys("fifo_eager", data, sw, ch, None)
+                msg = None
+                for op in [("open",)] + h:
+                    r, m = s_.step(op)
+                    if r != m:
+                        msg = "named pipe holding %d samples, in-memory load, %r: %s, reference model says %s" % (n, op, graph._short(r), graph._short(m))
+                        break
+                s_.close()
+                if msg:
+                    rep.violation("fifo n=%d sw=%d ch=%d" % (n, sw, ch), msg, {"kind": "fifo"})
+                    break
+
+
+def rewritten_files(rep):
+    """A history on the file system: the same path is rewritten with other audio of the same size between two loads,
+    with a fresh and with a preserved modification time (cp -p / rsync -t); every load hands out the file's current audio."""
+    aio = lib()["io"]
+    d = common.scratch_dir()
+    for ext in ("wav", "raw"):
+        for lazy in (False, True):
+            for keep_mtime in (False, True):
+                path = os.path.join(d, "rw_%d.%s" % (os.getpid(), ext))
+                versions = [content(6, 2, 1), bytes(reversed(content(6, 2, 1))), content(6, 2, 1)[2:] + b"\x07\x00"]
+                stamp = None
+                early = None
+                for i, data in enumerate(versions):
+                    _write(path, data, 2, 1)
+                    if lazy and early is not None:
+                        # a lazy source object made while the previous version was on disk, opened only now
+                        rep.add("evaluations")
+                        try:
+                            early.open()
+                            got = early.read(-1)
+                            early.close()
+                        except Exception as exc:
+                            got = "raised %r" % (exc,)
+                        if got != data:
+                            rep.violation("rewritten-early %s keep_mtime=%s load=%d" % (ext, keep_mtime, i + 1),
+                                          "a lazy %s source made before the file was rewritten and opened afterwards hands out %r, the file holds %r" % (
+                                              ext, got, data), {"kind": "rewritten"})
+                            break
+                    if keep_mtime:
+                        if stamp is None:
+                            st = os.stat(path)
+                            stamp = (st.st_atime_ns, st.st_mtime_ns)
+                        os.utime(path, ns=stamp)
+                    rep.add("evaluations")
+                    rep.add("distinct_nontrivial")
+                    try:
+                        src = _open_all(aio, path, lazy, 2, 1)
+                        src.open()
+                        got = src.read(-1)
+                        src.close()
+                    except Exception as exc:
+                        got = "raised %r" % (exc,)
+                    if lazy:
+                        early = _open_all(aio, path, True, 2, 1)
+                    if got != data:
+                        rep.violation("rewritten %s lazy=%s keep_mtime=%s load=%d" % (ext, lazy, keep_mtime, i + 1),
+                                      "load #%d of a %s file rewritten in place (%s modification time) hands out %r, the file holds %r" % (
+                                          i + 1, ext, "same" if keep_mtime else "new", got, data), {"kind": "rewritten"})
+                        break
+                os.unlink(path)
+
+
 def run(prop, tier):
     rep = common.Report(prop, tier, "explicit-state search over the real read/open/close/position operations of every "
                         "source kind to closure, merges validated with d-step suffixes, plus all unpruned operation "
@@ -382,6 +575,11 @@ def run(prop, tier):
                 else:
                     d, unpruned = (2, 4) if quick else (3, 6)
                 tasks.append((kind, n, sw, ch, d, unpruned, tier))
+    # the in-memory loaders, a named pipe given as a raw file, and sources living next to other sources
+    for kind in ("wav_eager", "raw_eager", "buffer+sib", "wav+sib", "raw+sib"):
+        for (sw, ch) in FORMATS:
+            for n in range(0, 7):
+                tasks.append((kind, n, sw, ch, 1 if quick else 2, 2 if quick else 3, tier))
     # large contents, large reads (sizes where chunked or buffered implementations change behaviour)
     for kind in ("buffer", "raw", "wav", "stdin", "stdin:4093", "stdin:8192,1"):
         for (sw, ch) in ((2, 2), (1, 3)):
@@ -403,6 +601,9 @@ def run(prop, tier):
                          "kinds": ["buffer", "raw", "wav", "stdin"]}
     lib()
     position_tables(rep)
+    loaders_large(rep, quick)
+    fifo_loads(rep)
+    rewritten_files(rep)
     for part in common.pmap(work, tasks):
         rep.merge(part)
     rep.assumptions += ["seconds/milliseconds positions are exercised on exact sample instants only",
@@ -412,6 +613,14 @@ def run(prop, tier):
 
 def replay(case):
     lib()
+    if case.get("kind") == "fifo":
+        rep = common.Report("C11", "quick", "")
+        fifo_loads(rep)
+        return rep.violations[0][1] if rep.violations else None
+    if case.get("kind") in ("loader_large", "rewritten"):
+        rep = common.Report("C11", "quick", "")
+        (loaders_large if case["kind"] == "loader_large" else rewritten_files)(*((rep, True) if case["kind"] == "loader_large" else (rep,)))
+        return rep.violations[0][1] if rep.violations else None
     if case.get("kind") == "postab":
         rep = common.Report("C11", "quick", "")
         position_tables(rep)
@@ -419,9 +628,10 @@ def replay(case):
     kind, n, sw, ch = case["source"], case["n"], case["sw"], case["ch"]
     data = content_big(n, sw, ch) if n > 1000 else content(n, sw, ch)
     path = None
-    if kind in ("raw", "wav"):
-        path = os.path.join(common.scratch_dir(), "replay.%s" % kind)
-        if kind == "raw":
+    base = kind.split("+")[0]
+    if base in ("raw", "wav", "raw_eager", "wav_eager"):
+        path = os.path.join(common.scratch_dir(), "replay.%s" % base[:3])
+        if base.startswith("raw"):
             open(path, "wb").write(data)
         else:
             with wave.open(path, "wb") as fp:
